@@ -436,7 +436,7 @@ def handleGen (j : String) (ts obs : List String) : String × String :=
     (expected, verdict [("generated-code-hands-the-compression-settings-on", String.intercalate " " obs == expected)])
   | _ => bad
 
-def handle (case obs : List String) : String × String :=
+def handleBase (case obs : List String) : String × String :=
   match case with
   | k :: ts =>
     if k.startsWith "srv." then handleSrv (k.drop 4).toString ts obs
@@ -444,6 +444,19 @@ def handle (case obs : List String) : String × String :=
     else if k.startsWith "pair." then handlePair (k.drop 5).toString ts obs
     else if k.startsWith "gen." then handleGen (k.drop 4).toString ts obs
     else bad
+  | _ => bad
+
+/-- `x.<knobs> <inner case>` (harness/src/c05_x.rs): the inner case run with dimensions turned
+that must be INVISIBLE to the negotiation — message-size limits configured next to the
+compression settings, the codec's buffer settings, how the received body is cut into DATA frames,
+foreign headers (`accept-encoding`, `content-encoding`, content-type / `te` / version variants,
+negotiation names in TRAILERS), `Pending` message streams, `with_origin`, clones of clones,
+histories in which the peer told the client what it accepts / the same server value served other
+calls, interceptor layers around generated code.  The model has no such parameter: prediction and
+verdict are those of the inner case. -/
+def handle (case obs : List String) : String × String :=
+  match case with
+  | k :: ts => if k.startsWith "x." then handleBase ts obs else handleBase case obs
   | _ => bad
 
 end DriverC05
